@@ -1,7 +1,7 @@
 (** C11 — Rewrites leave no orphans and references follow.
     Model: Model/RepoV.v (lib/src/repo.rs rebase_descendants_with_options and helpers,
     lib/src/rewrite.rs, lib/src/refs.rs, lib/src/commit_builder.rs). *)
-From Verif Require Import Base.Prelude Base.DagV Model.Merge Model.RepoV Model.C11 Proofs.C10 Proofs.C11 Proofs.C11Loop Proofs.C11View.
+From Verif Require Import Base.Prelude Base.DagV Model.Merge Model.RepoV Model.C11 Proofs.C10 Proofs.C11 Proofs.C11Loop Proofs.C11View Proofs.C11Follow.
 
 (** rewritten_ids_with (new_parents is the instance that skips divergent records) never runs out
     of the stated fuel, whatever the mapping (cyclic or not): every key is expanded once. *)
@@ -135,6 +135,48 @@ Proof.
   - intros x Hx. rewrite forallb_forall in C. apply memn_In. now apply C.
 Qed.
 
+(** Identity: rebase_descendants leaves every existing commit as it is, and every commit it adds
+    is either the rebased copy of a commit [x] that was to be rebased - same change id, same
+    description, predecessor [x] - or a re-created working-copy commit: no predecessor, a fresh
+    change id, empty description, empty content. *)
+Theorem C11_identity_kept : forall (s0 : state) (o : rebase_opts) ord (s' : state),
+  J s0 ->
+  (forall k r t, In (k, r) (s_pm s0) -> In t (new_parent_ids r) -> In t (scope s0 (o_imm o))) ->
+  (forall name t, In (name, t) (v_bms (s_v s0)) -> Nat.odd (length t) = true) ->
+  (forall order, ord (s_g s0) (s_pm s0) (find_descendants_for_rebase s0 (o_imm o)) = Ok order ->
+     valid_from s0 o [] order /\ forall x, In x (find_descendants_for_rebase s0 (o_imm o)) -> In x order) ->
+  rebase_descendants_with ord s0 o = Ok s' ->
+  length (s_g s0) <= length (s_g s') /\
+  (forall i, i < length (s_g s0) -> getc (s_g s') i = getc (s_g s0) i) /\
+  forall y, length (s_g s0) <= y < length (s_g s') ->
+    let c := getc (s_g s') y in
+    (exists x, c_preds c = [x] /\ In x (find_descendants_for_rebase s0 (o_imm o)) /\
+               c_change c = c_change (getc (s_g s0) x) /\ c_desc c = c_desc (getc (s_g s0) x))
+    \/ (c_preds c = [] /\ c_change c = N.of_nat y /\ c_desc c = 0%N /\ c_empty c = true).
+Proof. exact identity_model. Qed.
+
+(** Bookmarks follow (any ordering function, any records): an unconflicted local bookmark at a
+    commit [k] with a rewrite record ends at the full resolution [nids] of [k] through the final
+    records - the single new commit; a conflict [n1 - k + n2 ...] of all of them when there are
+    several (divergent rewrite, abandoned merge); absent for an abandoned commit when
+    delete_abandoned_bookmarks is set - and an unconflicted bookmark at a commit without record
+    stays where it is. *)
+Theorem C11_bookmarks_follow : forall (s0 : state) (o : rebase_opts) ord (s' : state),
+  NoDup (map fst (v_bms (s_v s0))) ->
+  rebase_descendants_with ord s0 o = Ok s' ->
+  exists s1 mapping, rebase_loop_with ord s0 o = Ok s1 /\
+    resolve_rewrite_mapping (s_pm s1) (fun _ => true) = Ok mapping /\
+    forall name k, aget N.eqb name (v_bms (s_v s0)) = Some [Some k] ->
+      match aget Nat.eqb k mapping with
+      | Some nids =>
+          rewritten_ids_with (s_pm s1) (fun _ => true) [k] = Ok nids /\
+          bm_get (s_v s') name =
+            (if o_delete_abandoned o && is_abandoned (pm_get (s_pm s1) k) then absent_target
+             else intersperse (map Some nids) (Some k))
+      | None => bm_get (s_v s') name = [Some k]
+      end.
+Proof. exact bookmarks_follow_model. Qed.
+
 (** The order check run on every case means [valid_from]. *)
 Theorem C11_order_check_spec : forall s0 o order,
   valid_fromb (s_g s0) (s_pm s0) (find_descendants_for_rebase s0 (o_imm o)) [] order = true ->
@@ -179,5 +221,7 @@ Print Assumptions C11_no_orphans_old_refuted.
 Print Assumptions C11_order_check_spec.
 Print Assumptions C11_no_orphans.
 Print Assumptions C11_no_orphans_impl_order.
+Print Assumptions C11_identity_kept.
+Print Assumptions C11_bookmarks_follow.
 Print Assumptions C11_wc_root_witness.
 Print Assumptions C11_no_orphans_loop.
